@@ -13,6 +13,7 @@ Lifted verbatim: tables and lexical structure that *are* data –
 from __future__ import annotations
 
 import ast
+import json
 import os
 import sys
 from pathlib import Path
@@ -496,21 +497,12 @@ def fs_facts(fs):
     return out
 
 # ---------------------------------------------------------------------------
-def main():
-    common = parse("common.py")
-    tree = parse("tree.py")
-    typed = parse("typed_tree.py")
-    fs = parse("fs.py")
-    diff = parse("diff.py")
-    mermaid = parse("mermaid.py")
-    dot = parse("dot.py")
-    init = parse("__init__.py")
+DECLS = Path(__file__).resolve().parent / "gen_facts_decls.json"   # last known good shape (name : type) of every section
 
-    lines = ["(* GENERATED by harness/gen_facts.py from /repo -- do not edit *)",
-             "From Coq Require Import List ZArith String.", "Import ListNotations.", ""]
 
-    # --- CONNECTORS
-    conn = module_assign(common, "CONNECTORS")
+def sec_connectors(m):
+    lines = []
+    conn = module_assign(m["common"], "CONNECTORS")
     if not isinstance(conn, ast.Dict):
         raise Unsupported("CONNECTORS is not a dict literal")
     rows = []
@@ -520,13 +512,17 @@ def main():
             raise Unsupported(f"CONNECTORS[{name}] is not a tuple literal")
         segs = [const_str(e) for e in v.elts]
         rows.append((name, segs))
-    lines.append("Definition CONNECTORS : list (list Z * list (list Z)) := [")
-    lines.append(";\n".join(f"  ({text(n)}, [{'; '.join(text(s) for s in segs)}])" for n, segs in rows))
-    lines.append("].")
-    tcls = class_def(tree, "Tree")
+    lines.append("Definition CONNECTORS : list (list Z * list (list Z)) := [\n" +
+                 ";\n".join(f"  ({text(n)}, [{'; '.join(text(s) for s in segs)}])" for n, segs in rows) + "\n].")
+    tcls = class_def(m["tree"], "Tree")
     lines.append(f"Definition DEFAULT_CONNECTOR_STYLE : list Z := {text(const_str(class_assign(tcls, 'DEFAULT_CONNECTOR_STYLE')))}.")
+    return lines
 
-    # --- format constants
+
+def sec_const(m):
+    lines = []
+    common, tree, typed, fs, init = m["common"], m["tree"], m["typed"], m["fs"], m["init"]
+    tcls = class_def(tree, "Tree")
     lines.append(f"Definition FILE_FORMAT_VERSION : list Z := {text(const_str(module_assign(common, 'FILE_FORMAT_VERSION')))}.")
     lines.append(f"Definition NUTREE_VERSION : list Z := {text(const_str(module_assign(init, '__version__')))}.")
     lines.append(f"Definition ROOT_DATA_ID : list Z := {text(const_str(module_assign(common, 'ROOT_DATA_ID')))}.")
@@ -547,11 +543,15 @@ def main():
         v = class_assign(cls, "DEFAULT_VALUE_MAP")
         if not (isinstance(v, ast.Dict) and not v.keys):
             raise Unsupported(f"{nm} DEFAULT_VALUE_MAP is not an empty dict literal")
+    return lines
 
-    # --- C19: lexical structure of the FileSystemTree mappers and of the two sort calls of load_tree_from_fs
-    lines.extend(fs_facts(fs))
 
-    # --- enums
+def sec_fs(m):
+    # C19: lexical structure of the FileSystemTree mappers and of the two sort calls of load_tree_from_fs
+    return list(fs_facts(m["fs"]))
+
+
+def sec_enums(m):
     def enum_members(mod, name):
         cls = class_def(mod, name)
         res = []
@@ -560,26 +560,27 @@ def main():
                 res.append((n.targets[0].id, n.value.value))
         return res
 
-    im = enum_members(common, "IterMethod")
-    lines.append("Definition ITER_METHODS : list (list Z * list Z) := [" + "; ".join(f"({text(a)}, {text(b)})" for a, b in im) + "].")
-    dc = enum_members(diff, "DiffClassification")
-    lines.append("Definition DIFF_CLASSES : list (list Z * Z) := [" + "; ".join(f"({text(a)}, {b}%Z)" for a, b in dc) + "].")
+    im = enum_members(m["common"], "IterMethod")
+    dc = enum_members(m["diff"], "DiffClassification")
+    return ["Definition ITER_METHODS : list (list Z * list Z) := [" + "; ".join(f"({text(a)}, {text(b)})" for a, b in im) + "].",
+            "Definition DIFF_CLASSES : list (list Z * Z) := [" + "; ".join(f"({text(a)}, {b}%Z)" for a, b in dc) + "]."]
 
-    # --- mermaid templates
-    for nm in ("DEFAULT_NODE_TEMPLATE", "DEFAULT_EDGE_TEMPLATE", "DEFAULT_EDGE_TEMPLATE_TYPED"):
-        lines.append(f"Definition MERMAID_{nm} : list Z := {text(const_str(module_assign(mermaid, nm)))}.")
 
-    # --- lock skeletons
-    lines.append("")
-    lines.append("(* lock skeletons: every control-flow path of every snapshot operation; [Call m] re-enters")
-    lines.append("   a snapshot operation whose method id is m = index in SNAPSHOT_METHOD_NAMES *)")
-    lines.append("Inductive lev := Acq | Rel | Read | Call (m : nat).")
+def sec_mermaid(m):
+    return [f"Definition MERMAID_{nm} : list Z := {text(const_str(module_assign(m['mermaid'], nm)))}."
+            for nm in ("DEFAULT_NODE_TEMPLATE", "DEFAULT_EDGE_TEMPLATE", "DEFAULT_EDGE_TEMPLATE_TYPED")]
+
+
+def sec_lock(m):
+    tree, typed, fs, dot = m["tree"], m["typed"], m["fs"], m["dot"]
+    tcls = class_def(tree, "Tree")
+    lines = []
     table = snapshot_table([tree, typed, fs], dot)
-    lines.append("Definition SNAPSHOT_METHOD_NAMES : list (list Z) := [" + "; ".join(text(m) for m in SNAPSHOT_METHODS) + "].")
+    lines.append("Definition SNAPSHOT_METHOD_NAMES : list (list Z) := [" + "; ".join(text(x) for x in SNAPSHOT_METHODS) + "].")
     for nm, _, paths in table:
         lines.append(f"Definition prog_{nm} : list (list lev) := [" + "; ".join(ev_list(p) for p in paths) + "].")
     lines.append("Definition SNAPSHOT_PROGS : list (nat * list (list lev)) := [" +
-                 "; ".join(f"({SNAPSHOT_METHODS.index(m)}, prog_{nm})" for nm, m, _ in table) + "].")
+                 "; ".join(f"({SNAPSHOT_METHODS.index(mm)}, prog_{nm})" for nm, mm, _ in table) + "].")
     lines.append("Definition SNAPSHOT_LABELS : list (list Z) := [" + "; ".join(text(nm) for nm, _, _ in table) + "].")
     # __enter__/__exit__ must be exactly acquire / release of self._lock (no arguments: blocking, no timeout)
     for meth, call in (("__enter__", "acquire"), ("__exit__", "release")):
@@ -593,29 +594,102 @@ def main():
         lines.append(f"Definition LOCK_{call.upper()}_OK : bool := {'true' if ok else 'false'}.")
     # the lock is a re-entrant lock, created once, in Tree.__init__, and never rebound anywhere in the package
     init_fn = func_def(tcls, "__init__")
+
     def lock_stores(scope):
         return [n for n in ast.walk(scope) if isinstance(n, (ast.Assign, ast.AnnAssign, ast.AugAssign))
                 and any(isinstance(x, ast.Attribute) and x.attr == "_lock" and isinstance(x.ctx, ast.Store) for x in ast.walk(n))]
     rl = lock_stores(init_fn)
-    everywhere = sum(len(lock_stores(m)) for m in (tree, typed, fs, dot, parse("node.py")))
+    everywhere = sum(len(lock_stores(mm)) for mm in (tree, typed, fs, dot, m["node"]))
     v = rl[0].value if len(rl) == 1 and isinstance(rl[0], ast.Assign) else None
     is_rlock = (everywhere == 1 and isinstance(v, ast.Call) and not v.args and not v.keywords
                 and ((isinstance(v.func, ast.Attribute) and v.func.attr == "RLock" and isinstance(v.func.value, ast.Name)
                       and v.func.value.id == "threading") or (isinstance(v.func, ast.Name) and v.func.id == "RLock")))
     lines.append(f"Definition LOCK_IS_RLOCK : bool := {'true' if is_rlock else 'false'}.")
+    return lines
 
+
+# section name -> (function, source files it reads, properties whose obligations use it)
+SECTIONS = [
+    ("CONNECTORS", sec_connectors, ["common", "tree"]),
+    ("CONST", sec_const, ["common", "tree", "typed", "fs", "init"]),
+    ("FS", sec_fs, ["fs"]),
+    ("ENUMS", sec_enums, ["common", "diff"]),
+    ("MERMAID", sec_mermaid, ["mermaid"]),
+    ("LOCK", sec_lock, ["tree", "typed", "fs", "dot", "node"]),
+]
+FILES = dict(common="common.py", tree="tree.py", typed="typed_tree.py", fs="fs.py", diff="diff.py", mermaid="mermaid.py",
+             dot="dot.py", init="__init__.py", node="node.py")
+
+_DEF_RE = __import__("re").compile(r"^Definition (\w+) : (.*?) :=", __import__("re").M | __import__("re").S)
+
+
+def dummy(ty: str) -> str:
+    ty = ty.strip()
+    if ty.startswith("list"):
+        return "[]"
+    if ty == "Z":
+        return "0%Z"
+    if ty == "nat":
+        return "0"
+    if ty == "bool":
+        return "false"
+    if ty.startswith("option"):
+        return "None"
+    raise Unsupported(f"no dummy value for type {ty}")
+
+
+def main():
+    """Every section is lifted on its own: a section whose source no longer has the shape the walk understands is
+    emitted with dummy values of the last known good types and `GEN_<SECTION>_OK := false`, so that exactly the
+    proof obligations that depend on it break (every Properties/Cxx.v that uses a section states `GEN_<SECTION>_OK = true`)."""
+    mods, errs = {}, {}
+    for k, fn in FILES.items():
+        try:
+            mods[k] = parse(fn)
+        except (SyntaxError, OSError) as e:
+            errs[k] = f"{fn}: {e}"
+    decls = json.loads(DECLS.read_text()) if DECLS.exists() else {}
+    lines = ["(* GENERATED by harness/gen_facts.py from /repo -- do not edit *)",
+             "From Coq Require Import List ZArith String.", "Import ListNotations.", "",
+             "(* lock skeletons: every control-flow path of every snapshot operation; [Call m] re-enters",
+             "   a snapshot operation whose method id is m = index in SNAPSHOT_METHOD_NAMES *)",
+             "Inductive lev := Acq | Rel | Read | Call (m : nat).", ""]
+    failed = []
+    new_decls = dict(decls)
+    for name, fn, needs in SECTIONS:
+        lines.append(f"(* ---- section {name} ---- *)")
+        try:
+            missing = [errs[k] for k in needs if k in errs]
+            if missing:
+                raise Unsupported("; ".join(missing))
+            sec = fn(mods)
+            lines.extend(sec)
+            lines.append(f"Definition GEN_{name}_OK : bool := true.")
+            new_decls[name] = [[a, " ".join(b.split())] for a, b in _DEF_RE.findall("\n".join(sec))]
+        except Unsupported as e:
+            failed.append(f"{name}: {e}")
+            lines.append("(* NOT LIFTED: " + str(e).replace("*)", "* )") + " *)")
+            for a, b in decls.get(name, []):
+                if a.startswith("prog_"):
+                    continue    # named programs are not invented: obligations naming them stop compiling
+                lines.append(f"Definition {a} : {b} := {dummy(b)}.")
+            lines.append(f"Definition GEN_{name}_OK : bool := false.")
+        lines.append("")
     new = "\n".join(lines) + "\n"
     OUT.parent.mkdir(parents=True, exist_ok=True)
     if not OUT.exists() or OUT.read_text() != new:
         OUT.write_text(new)
-    return 0
+    if not failed and new_decls != decls and os.environ.get("GEN_FACTS_UPDATE_DECLS"):
+        DECLS.write_text(json.dumps(new_decls, indent=1) + "\n")
+    for f in failed:
+        print(f"gen_facts: section not lifted: {f}", file=sys.stderr)
+    return 3 if failed else 0
 
 
 if __name__ == "__main__":
     try:
         sys.exit(main())
-    except (Unsupported, SyntaxError, OSError) as e:
-        # fail closed: leave a Generated.v that cannot satisfy any obligation
+    except Exception as e:   # noqa: BLE001  (fail closed: leave a Generated.v that cannot satisfy any obligation)
         print(f"gen_facts: {e}", file=sys.stderr)
         OUT.parent.mkdir(parents=True, exist_ok=True)
         OUT.write_text("(* gen_facts failed: " + str(e).replace("*)", "* )") + " *)\nDefinition GEN_FACTS_FAILED : True := I.\n")
